@@ -1168,6 +1168,15 @@ func (fr *frame) lockOp(key string, args []*Val, st *State, reach string, pos to
 		clause = "unlock of a lock that is held in the matching mode"
 	}
 	u.oblige(fr.obName(name, shortKey(key)), "lock", []string{"C20"}, reach, fmt.Sprintf("(= (select %s %s) %d)", h, id, want), fr.pos(pos), clause)
+	if set != 0 && u.eng.atomic[u.fn] {
+		// `atomic` operations (the store's Get / Put / Delete / List): what the operation reads and what it answers belong to
+		// ONE critical section. A second acquisition of the same lock in one call - directly or in a helper - means other
+		// requests ran in between, and the answer is put together from two states of the data.
+		uses := u.heapGet(st, "GH:lockuses", "(Array Int Int)")
+		u.oblige(fr.obName("lock-once", shortKey(key)), "lock", []string{"C20"}, reach, fmt.Sprintf("(= (select %s %s) 0)", uses, id), fr.pos(pos),
+			"an atomic operation takes its lock for one critical section only: between two sections other requests change what the first one saw")
+		u.heapSet(st, "GH:lockuses", "(Array Int Int)", fmt.Sprintf("(store %s %s 1)", uses, id))
+	}
 	u.heapSet(st, "GH:locks", "(Array Int Int)", fmt.Sprintf("(store %s %s %d)", h, id, set))
 	u.locksUsed = true
 	return &Val{t: "0"}, true
